@@ -145,9 +145,10 @@ def crashed_result(variant, seed, focus, extra, rc, stderr):
                        capture_output=True, text=True)
     lines = [l for l in p.stdout.splitlines() if re.match(r"^T\d+ ", l)]
     af = 1 if "#SWARM alloc_faults=1" in p.stdout else 0
+    sw = ([l[len("#SWARM "):].strip() for l in p.stdout.splitlines() if l.startswith("#SWARM ")] or ["alloc_faults=%d" % af])[0]
     why = "the process running the simulated callers died (exit status %d): %s" % (rc, (stderr or "").strip().splitlines()[-1:] or [""])
     return dict(mode="gated", variant=variant, seed=seed, focus=focus, events=len(lines), threads=0, ops={}, faults={"process_abort": 1},
-                thread_switches=0, first_uses=0, contended_first_uses=0, repeated_calls=0, alloc_faults=af, sched_hash="crash", h_parse_and_int="crash",
+                thread_switches=0, first_uses=0, contended_first_uses=0, repeated_calls=0, alloc_faults=af, swarm=sw, sched_hash="crash", h_parse_and_int="crash",
                 h_float_write="crash", records=None, trace=lines,
                 violations=[dict(index=len(lines), thread=0, prop="C10", tag="", enc="", op="(whole run)", msg=why),
                             dict(index=len(lines), thread=0, prop=focus, tag="", enc="", op="(whole run)", msg=why)])
@@ -354,7 +355,7 @@ def check(prop, tier):
                         stats["known_hits"][kid] = stats["known_hits"].get(kid, 0) + 1
                     elif v["prop"] == prop:
                         if violation is None or j["events"] < violation[4]:
-                            violation = (variant, j["seed"], dict(v, _alloc_faults=j.get("alloc_faults", 0)), j["trace"], j["events"])
+                            violation = (variant, j["seed"], dict(v, _swarm=j.get("swarm") or "alloc_faults=%d" % j.get("alloc_faults", 0)), j["trace"], j["events"])
                     elif v["prop"] == "HARNESS":
                         die("self-check failed in run %s seed %d: %s" % (variant, j["seed"], v["msg"]))
                     else:
@@ -397,7 +398,7 @@ def check(prop, tier):
                         elif counts_for(vi, v, "C16"):
                             # C16's own clause: "compact output parses to the same value" — an ordinary single-build history
                             if violation is None:
-                                violation = (v, s, dict(vi, msg="compact build: " + vi["msg"]), res[v].get("trace") or [], res[v]["events"])
+                                violation = (v, s, dict(vi, msg="compact build: " + vi["msg"], _swarm=res[v].get("swarm") or "alloc_faults=0"), res[v].get("trace") or [], res[v]["events"])
                         else:
                             stats["other_props"][vi["prop"]] = stats["other_props"].get(vi["prop"], 0) + 1
                 ref = res[cvars[0]]
@@ -548,7 +549,7 @@ def check(prop, tier):
         return 1
 
     variant, seed, v, lines, _ = violation[:5]
-    hdr = trace_header("gated", variant, seed, prop, prop, "alloc_faults=%d" % int(v.get("_alloc_faults", 0)))
+    hdr = trace_header("gated", variant, seed, prop, prop, v.get("_swarm", "alloc_faults=0"))
     small = minimise(variant, hdr, lines, prop, v.get("tag", ""), known)
     path = os.path.join(REPLAYS, "%s-%s-%d.trace" % (prop, variant, seed))
     write_trace(path, hdr + " original_events=%d" % len(lines), small)
